@@ -5,10 +5,10 @@ ID = 'C16'
 PKG = '.'
 HARNESS_FILES = ['pkg/frame/zz_verif_common.go', 'pkg/frame/zz_verif_dialect.go', 'pkg/frame/zz_verif_c02.go',
                  'pkg/frame/zz_verif_c05.go', 'pkg/frame/zz_verif_c06.go', 'pkg/frame/zz_verif_export.go',
-                 'pkg/frame/zz_verif_msgs.go', 'zz_verif_node.go', 'zz_verif_c16.go']
+                 'pkg/frame/zz_verif_msgs.go', 'zz_verif_node.go', 'zz_verif_c16.go', 'zz_verif_c09n.go']
 KERNEL_PKGS = ['.']
 CLOCK_PKGS = ['.']
-ROOTS = [r'v3\.verifHarness_C16']
+ROOTS = [r'v3\.verifHarness_C16', r'v3\.verifHarness_C09_node_init']
 ALLOW = 'bufio,io,encoding/binary,errors,bytes,time'
 INITS = 'io,bufio,errors,time,github.com/bluenviron/gomavlib/v3/pkg/message,github.com/bluenviron/gomavlib/v3/pkg/frame'
 OPTIONS = {'now_stub': True}
@@ -28,17 +28,23 @@ def tasks(tier):
             ts.append(Task('verifHarness_C16_request', [known, other]))
     ts += [Task('verifHarness_C16_two', [s]) for s in (0, 1)]
     ts.append(Task('verifHarness_C16_cleanup', []))
+    ts.append(Task('verifHarness_C16_request_on_full_backlog', []))
+    # the heartbeat / stream-request settings reach the node unchanged (both constructors)
+    for via in (0, 1):
+        ts.append(Task('verifHarness_C09_node_init', [0, via]))
     return ts
 
 
 def required_reach(tier):
-    return ['C16/HS1', 'C16/H2', 'C16/S2', 'C16/S3', 'C16/S4']
+    return ['C16/HS1', 'C16/H2', 'C16/S2', 'C16/S3', 'C16/S4', 'C16/S5', 'C09/N']
 
 
 def bounds(tier):
     return {'enable': '6 dialect kinds (none, standard, no id 0, non-standard id 0, heartbeat only, non-standard id 66) x heartbeat disabled x stream requests enabled',
             'tick': 'one tick; configured period, system type, autopilot type (bytes) and dialect version symbolic',
             'two_heartbeats': 'two ArduPilot heartbeats in a row from the same sender or from two components of one system, arbitrary clock readings: the second triggers again iff the sender differs or >= 30 s passed',
+            'settings': 'Node.Initialize / NewNode keep the configured heartbeat period, system type (any value 1..255), autopilot type, stream-request switch and frequency (symbolic)',
+            'full_backlog': 'ArduPilot heartbeat on a channel whose 64-item queue is full and not drained: onEventFrame returns, 7 requests handed to the node, one event',
             'cleanup': 'one cleanup tick over a table entry of arbitrary age (dropped iff >= 30 s old), then an ArduPilot heartbeat from an unknown sender: processed without blocking (the table lock is released), sender asked',
             'request': 'one incoming frame (heartbeat, another message, another message with an Autopilot field): sender ids, autopilot byte, type, configured frequency, clock reading and the sender\'s '
                        'table entry (absent / present with an arbitrary earlier time) symbolic; an unrelated table entry is checked untouched'}
